@@ -110,6 +110,10 @@ func (vc *VC) call(ins *ssa.Call) {
 			return
 		}
 	}
+	// a method call on a guarded value (e.g. vars.om.Set) is a use of it
+	if !c.IsInvoke() && len(c.Args) > 0 && c.StaticCallee() != nil && c.Signature().Recv() != nil {
+		vc.guardedUse(c.Args[0], ins.Pos(), "method-call")
+	}
 	ci := vc.mkCallInfo(c, ins, ins, "call")
 	res := vc.applyCall(ci)
 	vc.bindResults(ins, res)
